@@ -193,7 +193,7 @@ func runC08(p *engine.Prog, r *engine.Report) {
 				haveTxt := strings.Join(have, " ∧ ")
 				// every RuntimeInfo call: same receiver, error checked on every path from it to the flag
 				for i, ri := range ris {
-					if fi.T(recvOf(ri)).S != fi.T(recv).S {
+					if c.shardIdent(fi, recvOf(ri)) != c.shardIdent(fi, recv) {
 						okAll = false
 						haveTxt += fmt.Sprintf("; RuntimeInfo#%d is called on a different shard (%s)", i+1, fi.T(recvOf(ri)).S)
 					}
@@ -245,7 +245,7 @@ func runC08(p *engine.Prog, r *engine.Report) {
 					}
 					ck2 := fmt.Sprintf("UpdateConfig#%d in %s", j+1, engine.FuncName(fn))
 					var probs []string
-					if fi.T(recvOf(uc)).S != fi.T(recv).S {
+					if c.shardIdent(fi, recvOf(uc)) != c.shardIdent(fi, recv) {
 						probs = append(probs, "pushed to a different shard than the one reported")
 					}
 					rtHashU := fi.FieldPath(fi.T(base).S, uc, c.fRuntime, c.fCfgHash)
@@ -631,3 +631,34 @@ func (c *coord) checkScrapedSet(r *engine.Report) {
 }
 
 func controlsC08(p *engine.Prog) []Control { return nil }
+
+// shardIdent names the shard a value denotes: x.shard of a shardInfo x that was just built by a constructor which
+// stores its parameter into that field is the constructor's argument.
+func (c *coord) shardIdent(fi *engine.FuncInfo, v ssa.Value) string {
+	if owner, ok := loadOfField(v, c.fShard); ok {
+		if call, ok := owner.(*ssa.Call); ok {
+			if callee := call.Call.StaticCallee(); callee != nil && callee.Blocks != nil {
+				for _, ret := range returnsOf(callee) {
+					al, ok := ret.Results[0].(*ssa.Alloc)
+					if !ok {
+						continue
+					}
+					for _, rr := range *al.Referrers() {
+						fa, ok := rr.(*ssa.FieldAddr)
+						if !ok || engine.FieldOf(fa) != c.fShard {
+							continue
+						}
+						for _, r2 := range *fa.Referrers() {
+							if st, ok := r2.(*ssa.Store); ok && st.Addr == ssa.Value(fa) {
+								if pi := paramIndex(callee, st.Val); pi >= 0 && pi < len(call.Call.Args) {
+									return fi.T(call.Call.Args[pi]).S
+								}
+							}
+						}
+					}
+				}
+			}
+		}
+	}
+	return fi.T(v).S
+}
